@@ -271,7 +271,11 @@ func compareEvents(pred []Event, nr *nativeResult) string {
 	}
 	n := len(pred)
 	if len(nr.Events) != n {
-		return fmt.Sprintf("event count: predicted %d native %d (%s)", n, len(nr.Events), summarizeEvents(nr))
+		var sb strings.Builder
+		for _, e := range pred {
+			fmt.Fprintf(&sb, " %s(%s)", e.Kind, e.Label)
+		}
+		return fmt.Sprintf("event count: predicted %d [%s] native %d (%s)", n, sb.String(), len(nr.Events), summarizeEvents(nr))
 	}
 	for i := 0; i < n; i++ {
 		a, b := pred[i], nr.Events[i]
